@@ -543,6 +543,9 @@ func sliceOperands(x *Ctx, res *ssa.Function, elem, cur string) {
 			if o, _ := p.ErrorOutcome(); o != paths.Success {
 				continue
 			}
+			if r := p.Results()[0]; r == nil || r.IsNil() {
+				continue // "no value" of an optional segment: nothing was sliced
+			}
 		} else if p.End != paths.EndLatch {
 			continue
 		}
